@@ -268,8 +268,17 @@ func checkQ(k *K, cc *cmCase, parts map[string][]int, r *vrt.Rand, rep Rep) {
 			comm = commNodes(cc.ids(), memb, r)
 		}
 		var got []float64
+		commBefore := idsOfAll(comm)
+		wBefore, rBefore := append([]float64(nil), cc.weights...), append([]float64(nil), cc.res...)
 		if !kk.try(name, sig, func() { got = cc.gonumQ(single, mux, comm) }) {
 			continue
+		}
+		// user-supplied arguments must come back as they were passed
+		if !reflect.DeepEqual(commBefore, idsOfAll(comm)) {
+			kk.viol(name+"|"+sig+"|communities-argument-modified", map[string]any{"before": commBefore, "after": idsOfAll(comm)}, "%s modified the communities argument", name)
+		}
+		if !reflect.DeepEqual(wBefore, append([]float64(nil), cc.weights...)) || !reflect.DeepEqual(rBefore, append([]float64(nil), cc.res...)) {
+			kk.viol(name+"|"+sig+"|weights-or-resolutions-argument-modified", map[string]any{"weights": cc.weights, "resolutions": cc.res}, "%s modified its weights or resolutions argument", name)
 		}
 		kk.eval(name, fmt.Sprintf("%s|%s|part=%s|%s|layers=%d", sig, cc.wclass(), pn, resClass, len(cc.layers)), true)
 		_, want := s.Q(memb)
@@ -295,6 +304,7 @@ func isNilValue(x any) bool {
 
 // lvl is a uniform view of one level of a ReducedGraph / ReducedMultiplex.
 type lvl struct {
+	obj         reduced
 	nodeIDs     []int64
 	structure   [][]int64
 	communities [][]int64
@@ -350,6 +360,71 @@ func partitionOf(sets [][]int64, universe map[int64]bool) (ok bool, why string) 
 	return true, ""
 }
 
+// reduced is what ReducedGraph and ReducedMultiplex have in common.
+type reduced interface {
+	Nodes() graph.Nodes
+	Communities() [][]graph.Node
+	Structure() [][]graph.Node
+}
+
+// expandedOf returns the next lower level of a ReducedGraph/ReducedMultiplex
+// value, or nil at the lowest level (typed reports a non-nil interface that
+// wraps a nil pointer).
+func expandedOf(g reduced) (next reduced, typed bool) {
+	var e any
+	switch gg := g.(type) {
+	case community.ReducedGraph:
+		e = gg.Expanded()
+	case community.ReducedMultiplex:
+		e = gg.Expanded()
+	}
+	if e == nil {
+		return nil, false
+	}
+	if isNilValue(e) {
+		return nil, true
+	}
+	return e.(reduced), false
+}
+
+// lvlOf builds the uniform view of one level with a single query of each
+// accessor.
+func lvlOf(cc *cmCase, g reduced) lvl {
+	lv := lvl{
+		obj:         g,
+		nodeIDs:     idsOf(graph.NodesOf(g.Nodes())),
+		structure:   idsOfAll(g.Structure()),
+		communities: idsOfAll(g.Communities()),
+	}
+	switch gg := g.(type) {
+	case community.ReducedGraph:
+		gamma := cc.res[0]
+		lv.layer = func(int) graph.Graph { return gg }
+		lv.qStructure = func() []float64 { return []float64{community.Q(gg, gg.Structure(), gamma)} }
+		lv.qNil = func() []float64 { return []float64{community.Q(gg, nil, gamma)} }
+	case community.ReducedMultiplex:
+		switch ml := g.(type) {
+		case community.UndirectedMultiplex:
+			lv.layer = func(l int) graph.Graph { return ml.Layer(l) }
+		case community.DirectedMultiplex:
+			lv.layer = func(l int) graph.Graph { return ml.Layer(l) }
+		}
+		lv.qStructure = func() []float64 { return community.QMultiplex(gg, gg.Structure(), cc.weights, cc.res) }
+		lv.qNil = func() []float64 { return community.QMultiplex(gg, nil, cc.weights, cc.res) }
+	}
+	return lv
+}
+
+// collectLevels walks a result once, top down (top is a ReducedGraph or a
+// ReducedMultiplex), querying every accessor of every level exactly once.
+func collectLevels(cc *cmCase, top any) (levels []lvl, typedNil bool) {
+	for cur := top.(reduced); cur != nil; {
+		levels = append(levels, lvlOf(cc, cur))
+		cur, typedNil = expandedOf(cur)
+	}
+	return levels, typedNil
+}
+
 // checkModularize runs Modularize / ModularizeMultiplex and judges every level.
 func checkModularize(k *K, cc *cmCase, r *vrt.Rand, rep Rep) {
 	n := cc.n()
@@ -378,60 +453,20 @@ func checkModularize(k *K, cc *cmCase, r *vrt.Rand, rep Rep) {
 	typedNil := false
 	kk.mark(name)
 	kk.c.LastCase(fmt.Sprintf("%s %s %s weights=%v res=%v all=%v layers=%v", kk.wl, kk.caseID, name, cc.weights, cc.res, cc.all, cc.layers))
+	wBefore, rBefore := append([]float64(nil), cc.weights...), append([]float64(nil), cc.res...)
+	defer func() {
+		if !reflect.DeepEqual(wBefore, append([]float64(nil), cc.weights...)) || !reflect.DeepEqual(rBefore, append([]float64(nil), cc.res...)) {
+			kk.viol(name+"|"+shape+"|weights-or-resolutions-argument-modified", map[string]any{"weights": cc.weights, "resolutions": cc.res}, "%s modified its weights or resolutions argument", name)
+		}
+	}()
 	p := vrt.Try(func() {
+		var top any
 		if !cc.multiplex {
-			gamma := cc.res[0]
-			top := community.Modularize(single, gamma, src)
-			for cur := top; ; {
-				g := cur
-				levels = append(levels, lvl{
-					nodeIDs:     idsOf(graph.NodesOf(g.Nodes())),
-					structure:   idsOfAll(g.Structure()),
-					communities: idsOfAll(g.Communities()),
-					layer:       func(int) graph.Graph { return g },
-					qStructure:  func() []float64 { return []float64{community.Q(g, g.Structure(), gamma)} },
-					qNil:        func() []float64 { return []float64{community.Q(g, nil, gamma)} },
-				})
-				next := g.Expanded()
-				if next == nil {
-					break
-				}
-				if isNilValue(next) {
-					typedNil = true
-					break
-				}
-				cur = next
-			}
-			return
+			top = community.Modularize(single, cc.res[0], src)
+		} else {
+			top = community.ModularizeMultiplex(mux, cc.weights, cc.res, cc.all, src)
 		}
-		top := community.ModularizeMultiplex(mux, cc.weights, cc.res, cc.all, src)
-		for cur := top; ; {
-			g := cur
-			var layerOf func(l int) graph.Graph
-			switch gg := g.(type) {
-			case community.UndirectedMultiplex:
-				layerOf = func(l int) graph.Graph { return gg.Layer(l) }
-			case community.DirectedMultiplex:
-				layerOf = func(l int) graph.Graph { return gg.Layer(l) }
-			}
-			levels = append(levels, lvl{
-				nodeIDs:     idsOf(graph.NodesOf(g.Nodes())),
-				structure:   idsOfAll(g.Structure()),
-				communities: idsOfAll(g.Communities()),
-				layer:       layerOf,
-				qStructure:  func() []float64 { return community.QMultiplex(g, g.Structure(), cc.weights, cc.res) },
-				qNil:        func() []float64 { return community.QMultiplex(g, nil, cc.weights, cc.res) },
-			})
-			next := g.Expanded()
-			if next == nil {
-				break
-			}
-			if isNilValue(next) {
-				typedNil = true
-				break
-			}
-			cur = next
-		}
+		levels, typedNil = collectLevels(cc, top)
 	})
 	evalClass := fmt.Sprintf("%s|layers=%d|res=%v|all=%v|levels=%d", sig, len(cc.layers), cc.res, cc.all, len(levels))
 	if p != nil {
@@ -468,6 +503,18 @@ func checkModularize(k *K, cc *cmCase, r *vrt.Rand, rep Rep) {
 			}
 		}
 	}
+	judgeLevels(kk, name, shape, sig, cc, s, single, mux, levels, true)
+}
+
+// judgeLevels judges a hierarchy (given top first) against the model: every
+// level a partition, Structure/Communities/reduced weights/Q mutually
+// consistent; with optim also Q monotone across levels, >= singletons, and
+// local optimality of every level (only meaningful when every level was
+// produced at the resolution of cc).
+func judgeLevels(kk *K, name, shape, sig string, cc *cmCase, s *qSys, single graph.Graph, mux community.Multiplex, levels []lvl, optim bool) {
+	n := cc.n()
+	wclass := cc.wclass()
+	levels = append([]lvl(nil), levels...)
 	// base first
 	for i, j := 0, len(levels)-1; i < j; i, j = i+1, j-1 {
 		levels[i], levels[j] = levels[j], levels[i]
@@ -708,7 +755,7 @@ func checkModularize(k *K, cc *cmCase, r *vrt.Rand, rep Rep) {
 				}
 			}
 		}
-		if scale > 0 {
+		if scale > 0 && optim {
 			if qr < qPrev-qRel*scale {
 				if li == 0 {
 					fail("Q-below-singletons", map[string]any{"level": li, "q": qr, "q_singletons": qSingle},
@@ -739,7 +786,7 @@ func checkModularize(k *K, cc *cmCase, r *vrt.Rand, rep Rep) {
 		}
 		blocks = next
 	}
-	if scale > 0 && qPrev < qSingle-qRel*scale {
+	if optim && scale > 0 && qPrev < qSingle-qRel*scale {
 		fail("final-Q-below-singletons", map[string]any{"q": qPrev, "q_singletons": qSingle}, "final Q = %.17g is below Q of the singleton partition %.17g", qPrev, qSingle)
 	}
 }
